@@ -106,7 +106,7 @@ def run(ctx):
         if key_ in bycell:
             sentinels.append(bycell[key_])
     runs = pinned + sentinels + runs
-    res = ctx.run_impl("c03_impl", {"demand_cases": dcases, "runs": runs, "procs": 14})
+    res = ctx.run_impl("c03_impl", {"demand_cases": dcases, "runs": runs, "procs": 14}, timeout=3000 if ctx.quick else 20000)
     terms = []
     term_run = {}
     for c, o in zip(dcases, res["demand"]):
